@@ -42,11 +42,11 @@ CONTEXTS = ['native', 'benter', 'enter', 'recur', 'exit', 'precur', 'renter', 'r
 
 
 def relpath(maxseg=2, pool=None):
-    return st.lists(pool or NODEW, min_size=1, max_size=maxseg).map(".".join)
+    return st.lists(NODEW if pool is None else pool, min_size=1, max_size=maxseg).map(".".join)
 
 
 def abspath(maxseg=3, pool=None):
-    return st.lists(pool or NODEW, min_size=1, max_size=maxseg).map(lambda s: "." + ".".join(s))
+    return st.lists(NODEW if pool is None else pool, min_size=1, max_size=maxseg).map(lambda s: "." + ".".join(s))
 
 
 @st.composite
@@ -430,3 +430,368 @@ def render_command(case, order=None):
         line += " " + clauses[i][1]
     line += case.get("tail", "")
     return "\n".join(list(case["pre"]) + [line] + list(case["post"])) + "\n"
+
+
+# ------------------------------------------------------------------------------ small programs (C16)
+# A program is {"lines": [[indent, [token, ...]], ...], "logger": bool}; tokens are FloScript
+# chunks (a quoted string is ONE token). Canonical layout: one command per line, nesting
+# indentation, single spaces. Everything is constructed so that the canonical text builds.
+
+VAL_SHARES = [".va", ".vb.vc", "rva", "rvb of framer", "rvc of frame", "me.rvd", "rve of root"]
+FIELD_SHARES = [".fa", ".fb.fc", "rfa", "rfb of framer"]
+STR_SHARES = [".sa", "rsa of framer"]
+FIELDS = ["fx", "fy", "fz"]
+NUMS = ["0", "1", "2", "3.5", "-1", "0.25", "10"]
+STRS = ['"a b"', "'c d'", '"x # y"', "'it is'", '"plain"', "word"]
+LOGDIR = "@LOGDIR@"
+
+
+def _toks(text):
+    """split helper for generator literals: blanks separate tokens (no quotes with blanks here)"""
+    return text.split()
+
+
+NUM_ABS = [".va", ".vb.vc"]          # always initialised with numbers at house level
+FIELD_ABS = [".fa", ".fb.fc"]        # always initialised with numeric fields fx fy fz
+ORDERING = ["<", "<=", ">=", ">"]
+
+
+@st.composite
+def val_ref(draw, numeric=False):
+    """tokens of an indirect reference to a value share; numeric=True: one that is initialised with
+    a number (ordering comparisons and inc on a never written share are user errors at run time)"""
+    s = draw(st.sampled_from(NUM_ABS if numeric else VAL_SHARES))
+    t = _toks(s)
+    if draw(st.integers(0, 3)) == 0:
+        t = ["value", "in"] + t
+    return t
+
+
+@st.composite
+def field_ref(draw, nfields=None, absolute=False):
+    s = draw(st.sampled_from(FIELD_ABS if absolute else FIELD_SHARES))
+    n = nfields or draw(st.integers(1, 2))
+    fs = list(draw(st.permutations(FIELDS)))[:n]
+    return fs + ["in"] + _toks(s), fs
+
+
+@st.composite
+def need(draw, frames):
+    k = draw(st.sampled_from(["elapsed", "recurred", "cmp", "cmpi", "tol", "bool", "not", "upd", "fld", "str", "eq"]))
+    if k == "elapsed":
+        return ["elapsed", draw(st.sampled_from([">=", ">"])), draw(st.sampled_from(["0.25", "0.5", "1.0"]))]
+    if k == "recurred":
+        return ["recurred", ">=", draw(st.sampled_from(["1", "2", "3"]))]
+    if k == "cmp":
+        return draw(val_ref(True)) + [draw(st.sampled_from(COMPARISONS)), draw(st.sampled_from(NUMS))]
+    if k == "eq":
+        return draw(val_ref()) + [draw(st.sampled_from(["==", "!="])), draw(st.sampled_from(NUMS))]
+    if k == "cmpi":
+        return draw(val_ref(True)) + [draw(st.sampled_from(COMPARISONS))] + draw(val_ref(True))
+    if k == "tol":
+        return draw(val_ref(True)) + ["==", draw(st.sampled_from(NUMS)), "+-", draw(st.sampled_from(["0.5", "1"]))]
+    if k == "bool":
+        return draw(val_ref())
+    if k == "not":
+        return ["not"] + draw(val_ref())
+    if k == "upd":
+        t = _toks(draw(st.sampled_from(VAL_SHARES))) + ["is", draw(st.sampled_from(["updated", "changed"]))]
+        if draw(st.booleans()):
+            t += ["in", "frame"] + ([draw(st.sampled_from(frames))] if draw(st.booleans()) else [])
+        if draw(st.integers(0, 2)) == 0:
+            t += ["by", draw(st.sampled_from(["mka", "'mk b'"]))]
+        return t
+    if k == "fld":
+        ref, fs = draw(field_ref(1, absolute=True))
+        return ref + [draw(st.sampled_from(COMPARISONS)), draw(st.sampled_from(NUMS))]
+    return _toks(draw(st.sampled_from(STR_SHARES))) + [draw(st.sampled_from(["==", "!="])), draw(st.sampled_from(STRS[:5]))]
+
+
+@st.composite
+def needs(draw, frames):
+    out = []
+    for i, n in enumerate(draw(st.lists(need(frames), min_size=1, max_size=3))):
+        if i:
+            out.append("and")
+        out += n
+    return out
+
+
+@st.composite
+def action(draw, frames, framers, auxes):
+    k = draw(st.sampled_from(["put", "putf", "puts", "inc", "inci", "copy", "set", "seti", "print",
+                              "do", "do", "bid", "ctx", "put", "inc"]))
+    if k == "put":
+        return ["put", draw(st.sampled_from(NUMS)), "into"] + draw(val_ref())
+    if k == "putf":
+        ref, fs = draw(field_ref())
+        data = []
+        for f in fs:
+            data += [f, draw(st.sampled_from(NUMS))]
+        return ["put"] + data + ["into"] + ref
+    if k == "puts":
+        return ["put", draw(st.sampled_from(STRS)), "into"] + _toks(draw(st.sampled_from(STR_SHARES)))
+    if k == "inc":
+        return ["inc"] + draw(val_ref(True)) + ["with", draw(st.sampled_from(NUMS))]
+    if k == "inci":
+        return ["inc"] + draw(val_ref(True)) + ["from"] + draw(val_ref(True))
+    if k == "copy":
+        return ["copy"] + draw(val_ref()) + ["into"] + draw(val_ref())
+    if k == "set":
+        return ["set", draw(st.sampled_from(["goal.ga", "goal.gb of framer"])).split()[0]] + \
+            ["with", draw(st.sampled_from(NUMS))]
+    if k == "seti":
+        return ["set", "elapsed", "with", draw(st.sampled_from(["0.5", "1.0"]))]
+    if k == "print":
+        return ["print"] + draw(st.lists(st.sampled_from(WORDS + STRS + ["to", "is", "=="]), min_size=1, max_size=4))
+    if k == "do":
+        t = ["do", "doer", "param"]
+        if draw(st.booleans()):
+            t += ["as"] + draw(st.lists(word, min_size=1, max_size=2))
+        if draw(st.booleans()):
+            t += ["at", draw(st.sampled_from(["enter", "recur", "exit", "renter"]))]
+        if draw(st.booleans()):
+            t += ["via"] + _toks(draw(st.sampled_from(["nda", "ndb.", ".top.ndc", "me.ndd", "nde of framer", "ndf of frame"])))
+        if draw(st.booleans()):
+            t += ["with", draw(st.sampled_from(FIELDS_WITH)), draw(st.sampled_from(NUMS + STRS))]
+        if draw(st.booleans()):
+            t += ["per", draw(st.sampled_from(FIELDS_PER)), draw(st.sampled_from([".va", "rva", "me.rvd", "io.sh"]))]
+        if draw(st.integers(0, 2)) == 0:
+            ref, fs = draw(field_ref())
+            t += ["from"] + ref
+        return t
+    if k == "bid":
+        return ["bid", draw(st.sampled_from(["stop", "start", "run"])), draw(st.sampled_from(framers + ["me"]))]
+    return [draw(st.sampled_from(["enter", "recur", "exit", "precur", "renter", "rexit", "native"]))]
+
+
+@st.composite
+def small_program(draw):
+    lines = [[0, ["house", draw(st.sampled_from(["hsa", "hsb"]))]]]
+    for sh in NUM_ABS:
+        lines.append([2, ["init", sh, "with", draw(st.sampled_from(NUMS))]])
+    for sh in FIELD_ABS:
+        lines.append([2, ["init", sh, "with", "fx", draw(st.sampled_from(NUMS)), "fy", draw(st.sampled_from(NUMS)),
+                          "fz", "0"]])
+    has_logger = draw(st.integers(0, 3)) == 0
+    if has_logger:
+        t = ["logger", "lgr", "to", LOGDIR]
+        if draw(st.booleans()):
+            t += ["flush", "1"]
+        if draw(st.booleans()):
+            t += ["at", "0.25"]
+        lines.append([2, t])
+        lines.append([4, ["log", "lga", "on", draw(st.sampled_from(["always", "update", "change", "once"]))]])
+        lg = ["loggee", ".va"]
+        second = draw(st.booleans())
+        if second or draw(st.booleans()):
+            lg += ["as", "tagva"]   # a tag is needed to separate the next `fields in path` entry
+        if second:
+            lg += ["fx", "fy", "in", ".fa", "as", "tagfa"]
+        lines.append([6, lg])
+    nfr = draw(st.integers(1, 2))
+    framers = ["fra", "frb"][:nfr]
+    auxes = []
+    if draw(st.booleans()):
+        auxes = ["axa"]
+    for fi, fname in enumerate(framers):
+        t = ["framer", fname, "be", "active"]
+        if draw(st.booleans()):
+            t += ["at", draw(st.sampled_from(["0.125", "0.25", "0"]))]
+        if draw(st.booleans()):
+            t += ["via", draw(st.sampled_from(["ina", "inb.", ".abs.inc", "me.ind"]))]
+        nframes = draw(st.integers(1, 3))
+        frames = ["%s%d" % ("pq"[fi], j) for j in range(nframes)]
+        if draw(st.booleans()):
+            t += ["first", frames[0]]
+        lines.append([2, t])
+        lines.append([4, ["frame", "top" + fname]])
+        lines.append([6, ["go", "fin" + fname, "if", "elapsed", ">=", draw(st.sampled_from(["1.0", "2.0"]))]])
+        for j, fr in enumerate(frames):
+            t = ["frame", fr, "in", "top" + fname]
+            if draw(st.integers(0, 2)) == 0:
+                t += ["via", draw(st.sampled_from(["fia", "me.fib", "fic."]))]
+            lines.append([6, t])
+            if auxes and draw(st.integers(0, 2)) == 0 and fi == 0 and j == 0:
+                if draw(st.booleans()):
+                    lines.append([8, ["aux", auxes[0]]])
+                else:
+                    lines.append([8, ["aux", auxes[0], "if"] + draw(needs(frames))])
+            if draw(st.integers(0, 3)) == 0:
+                lines.append([8, ["let", "me", "if"] + draw(needs(frames))])
+            for _ in range(draw(st.integers(1, 4))):
+                lines.append([8, draw(action(frames, framers, auxes))])
+            lines.append([8, ["native"]])
+            kind = draw(st.sampled_from(["go", "go", "timeout", "repeat", "gonext"]))
+            if kind == "go":
+                far = draw(st.sampled_from(frames + ["next", "me"]))
+                lines.append([8, ["go", far, "if"] + draw(needs(frames))])
+                lines.append([8, ["go", "next", "if", "recurred", ">=", "3"]])
+            elif kind == "timeout":
+                lines.append([8, ["timeout", draw(st.sampled_from(["0.5", "1"]))]])
+            elif kind == "repeat":
+                lines.append([8, ["repeat", draw(st.sampled_from(["2", "3"]))]])
+            else:
+                lines.append([8, ["go", "next"]])
+        lines.append([4, ["frame", "fin" + fname]])
+        lines.append([6, ["print", draw(st.sampled_from(STRS)), "finished"]])
+        lines.append([6, ["bid", "stop", draw(st.sampled_from(["me", "all"]))]])
+    for ax in auxes:
+        lines.append([2, ["framer", ax, "be", "aux"]])
+        lines.append([4, ["frame", "ax0"]])
+        lines.append([6, ["inc", ".va", "with", "1"]])
+        lines.append([6, ["go", "next", "if", "recurred", ">=", "2"]])
+        lines.append([4, ["frame", "ax1"]])
+        lines.append([6, ["done"]])
+    return {"lines": lines, "logger": has_logger}
+
+
+def canonical_text(lines):
+    return "".join(" " * ind + " ".join(toks) + "\n" for ind, toks in lines)
+
+
+# ------------------------------------------------------------------------------ layout transformer (C16)
+import re
+
+CHUNKS = re.compile(r"""#.*|[^ "']+|"[^"]*"|'[^']*'""")  # what FloScript calls a chunk (globaling.REO_Chunks)
+LAYOUT_KINDS = ("indent", "tabindent", "multispace", "backslash", "connective", "blank", "commentline",
+                "trailcomment")
+COMMENTS = ["# note", "#", "# go next if x == 1", "#   spaced   comment", "# it's \"quoted\" here", "#tight",
+            "# via in of to == <="]
+
+
+def plan_logical_lines(text):
+    """Split an existing script into items: ["cmd", indent, tokens, comment|None] for a physical
+    line that is a whole chunk sequence on its own, or ["raw", text] for anything that is kept
+    verbatim (backslash continuation groups, lines that do not re-tokenize to themselves, tabs)."""
+    items = []
+    phys = text.split("\n")
+    if phys and phys[-1] == "":
+        phys.pop()
+    i = 0
+    while i < len(phys):
+        ln = phys[i]
+        if ln.rstrip().endswith("\\"):
+            grp = [ln]
+            while phys[i].rstrip().endswith("\\") and i + 1 < len(phys):
+                i += 1
+                grp.append(phys[i])
+            items.append(["raw", "\n".join(grp)])
+            i += 1
+            continue
+        stripped = ln.strip()
+        if not stripped or "\t" in ln or "\r" in ln:
+            items.append(["raw", ln])
+            i += 1
+            continue
+        chunks = CHUNKS.findall(stripped)
+        toks, comment = [], None
+        for c in chunks:
+            if c[0] == "#":
+                comment = c
+                break
+            toks.append(c)
+        rebuilt = " ".join(toks + ([comment] if comment else []))
+        if not toks or " ".join(stripped.split()) != " ".join(rebuilt.split()) or "\\" in stripped:
+            items.append(["raw", ln])
+        else:
+            items.append(["cmd", len(ln) - len(ln.lstrip(" ")), toks, comment])
+        i += 1
+    return items
+
+
+def layout(items, rnd, intensity=0.5, kinds=LAYOUT_KINDS):
+    """Render items (from plan_logical_lines or canonical [indent, tokens] lines) under random layout.
+
+    rnd: random.Random seeded from the generated case (deterministic).
+    Returns (text, [set of kinds used per cmd item], [len(tokens) per cmd item]).
+    Only these transformations are used (the ones the property claims):
+      indent        other number of leading blanks on a command / continuation line
+      tabindent     leading tab(s) on the first line of a command or of a connective continuation
+      multispace    2..5 blanks between two tokens
+      backslash     ` \\`newline between two tokens (continuation line starts with blanks only)
+      connective    newline before a token that is a connective or comparison
+      blank         blank (or blanks-only) line before a command or between connective pieces
+      commentline   comment-only line before a command or between connective pieces
+      trailcomment  ` # ...` after the last token of a command or of a connective piece
+    Never: comment/blank inside a backslash continuation, tab between tokens or after a
+    backslash, a split inside quotes.
+    """
+    use = set(kinds)
+    out = []
+    used_all, ntoks = [], []
+
+    def on(kind, p=None):
+        return kind in use and rnd.random() < (intensity if p is None else p)
+
+    def filler(used):
+        lines = []
+        for _ in range(rnd.randint(1, 2)):
+            if "blank" in use and rnd.random() < 0.5:
+                used.add("blank")
+                lines.append(" " * rnd.choice([0, 0, 3, 7]))
+            elif "commentline" in use:
+                used.add("commentline")
+                lines.append(" " * rnd.randint(0, 9) + rnd.choice(COMMENTS))
+        return lines
+
+    for it in items:
+        if it[0] == "raw":
+            out.append(it[1])
+            continue
+        if it[0] == "cmd":
+            _, ind, toks, comment = it
+        else:
+            ind, toks = it
+            comment = None
+        used = set()
+        if on("blank", intensity * 0.4) or on("commentline", intensity * 0.4):
+            out.extend(filler(used))
+        # leading white space of the first physical line
+        if on("tabindent", intensity * 0.3):
+            lead = "\t" * rnd.randint(1, 2)
+            used.add("tabindent")
+        elif on("indent"):
+            lead = " " * rnd.randint(0, 12)
+            if len(lead) != ind:
+                used.add("indent")
+        else:
+            lead = " " * ind
+        cur = lead + toks[0]
+        in_backslash = False  # the current physical line belongs to a backslash group (not its first line)
+        for k in range(1, len(toks)):
+            tok = toks[k]
+            if tok in RESERVED and toks[0] != "load" and on("connective", intensity * 0.5):
+                used.add("connective")
+                # finish the piece: optional trailing comment (allowed on the last line of a group)
+                if on("trailcomment", intensity * 0.5):
+                    used.add("trailcomment")
+                    cur += " " * rnd.randint(1, 3) + rnd.choice(COMMENTS)
+                out.append(cur)
+                if on("blank", intensity * 0.4) or on("commentline", intensity * 0.4):
+                    out.extend(filler(used))
+                if on("tabindent", intensity * 0.2):
+                    used.add("tabindent")
+                    cur = "\t" + tok
+                else:
+                    cur = " " * rnd.randint(0, 14) + tok
+                in_backslash = False
+            elif on("backslash", intensity * 0.35):
+                used.add("backslash")
+                out.append(cur + " " * rnd.randint(1, 2) + "\\")
+                cur = " " * rnd.randint(0, 14) + tok
+                in_backslash = True
+            elif on("multispace", intensity * 0.6):
+                used.add("multispace")
+                cur += " " * rnd.randint(2, 5) + tok
+            else:
+                cur += " " + tok
+        if comment is not None:
+            cur += "  " + comment
+        elif on("trailcomment", intensity * 0.5):
+            used.add("trailcomment")
+            cur += " " * rnd.randint(1, 3) + rnd.choice(COMMENTS)
+        out.append(cur)
+        used_all.append(sorted(used))
+        ntoks.append(len(toks))
+    return "\n".join(out) + "\n", used_all, ntoks
